@@ -47,6 +47,12 @@ func checkRoundTrip(in []byte, root ast.Vertex) {
 			continue
 		}
 		what := "moved " + concreteText(c)
+		if off > o {
+			// source text, but later than expected: the bytes in between were not printed
+			what = "source bytes missing before " + ownerName(root, in, off, len(c))
+		} else if off >= 0 {
+			what = "source text printed again or too late: " + ownerName(root, in, off, len(c))
+		}
 		if off < 0 {
 			what = "invented " + concreteText(c)
 			if len(c) == 1 && !IsSymbolic(c) && c[0] == ' ' && k > 0 && k+1 < len(ch.list) {
@@ -66,6 +72,16 @@ func checkRoundTrip(in []byte, root ast.Vertex) {
 	if o != len(in) {
 		Fail("C02:roundtrip", "output shorter than the source")
 	}
+}
+
+// ownerName: id of the token whose value is in[off:off+n].
+func ownerName(root ast.Vertex, in []byte, off, n int) string {
+	for _, t := range TokensOf(root, nil, true) {
+		if len(t.Value) == n && SliceOff(in, t.Value) == off {
+			return t.ID.String()
+		}
+	}
+	return "?"
 }
 
 func H_C02() {
@@ -135,17 +151,39 @@ func checkTokens(in []byte, root ast.Vertex, errorFree bool) {
 	}
 	Assert("C04:token-text-is-source-slice", textOK)
 	Assert("C04:token-lines", linesOK)
-	// order and overlap (tree order = declaration order of the slots)
+	// order and overlap: sorted by start offset (separator tokens live in their own
+	// list slots, so tree order is not offset order), neighbours must not overlap;
+	// free-floating tokens precede their owner, in order and without gaps
 	toks = withPositions(toks)
+	toks = mergeSortTokens(toks)
 	for i := 1; i < len(toks); i++ {
 		a, b := toks[i-1].Position, toks[i].Position
 		if a.EndPos > b.StartPos {
-			Fail("C04:tokens-ordered-disjoint", toks[i-1].ID.String()+" then "+toks[i].ID.String())
+			Fail("C04:tokens-ordered-disjoint", toks[i-1].ID.String()+" overlaps "+toks[i].ID.String())
 			return
 		}
 	}
 	if !errorFree {
 		return
+	}
+	ffOK := true
+	walkOwnTokens(root, func(t *token.Token) {
+		at := -1
+		for _, f := range t.FreeFloating {
+			if f == nil || f.Position == nil {
+				continue
+			}
+			if at >= 0 && f.Position.StartPos != at {
+				ffOK = false
+			}
+			at = f.Position.EndPos
+		}
+		if at >= 0 && t.Position != nil && t.Position.StartPos != at {
+			ffOK = false
+		}
+	})
+	if !ffOK {
+		Fail("C04:free-floating-precedes-owner", "")
 	}
 	// tiling
 	at := 0
@@ -409,6 +447,28 @@ func H_C06() {
 
 func hasPrefixStr(s, p string) bool {
 	return len(s) >= len(p) && s[:len(p)] == p
+}
+
+// mergeSortTokens orders tokens by (start, end); positions are concrete.
+func mergeSortTokens(ts []*token.Token) []*token.Token {
+	if len(ts) < 2 {
+		return ts
+	}
+	m := len(ts) / 2
+	a, b := mergeSortTokens(ts[:m:m]), mergeSortTokens(ts[m:])
+	out := make([]*token.Token, 0, len(ts))
+	i, j := 0, 0
+	for i < len(a) && j < len(b) {
+		if tokLess(b[j], a[i]) {
+			out = append(out, b[j])
+			j++
+		} else {
+			out = append(out, a[i])
+			i++
+		}
+	}
+	out = append(out, a[i:]...)
+	return append(out, b[j:]...)
 }
 
 func withPositions(ts []*token.Token) []*token.Token {
